@@ -40,6 +40,11 @@ try:
                     json.dump(entry, f, indent=1)
 finally:
     subprocess.run(["git", "-C", "/repo", "checkout", "--", "."], check=True)
+# the corpus entries just added must be quiet on the unchanged tree (a shrunk input may have left the property's domain)
+for c in checks:
+    r = subprocess.run([f"{V}/check", c], cwd=V, capture_output=True, text=True)
+    if r.returncode != 0:
+        print(f"WARNING: ./check {c} is not quiet on the clean tree after adding the corpus entry:", r.stdout[-400:])
 meta = {"property": prop, "origin": "fresh sub-agent given only the property text and a scratch worktree (round 3)",
         "what": what, "needs_to_manifest": needs,
         "confirmed_by_me": {"how": "tools/confirm_mutant.sh in the scratch worktree", "result": confirm},
